@@ -700,6 +700,13 @@ impl TransportHandle {
             );
         }
 
+        // From here on the pending entry is removed however this future ends: with a
+        // response, a timeout, a send error, or because the caller dropped it.
+        let _pending_guard = PendingRequestGuard {
+            requests: Arc::clone(&self.active_requests),
+            message_id: message_id.clone(),
+        };
+
         let envelope = RequestResponseEnvelope {
             message_id: message_id.clone(),
             is_response: false,
@@ -804,6 +811,30 @@ impl TransportHandle {
                 format!("Failed to serialize message: {e}").into(),
             ))
         })
+    }
+}
+
+/// Removes a pending request entry when the request future ends for any reason, including
+/// cancellation by the caller (which skips the explicit cleanup at the end of `send_request`).
+struct PendingRequestGuard {
+    requests: Arc<RwLock<HashMap<String, PendingRequest>>>,
+    message_id: String,
+}
+
+impl Drop for PendingRequestGuard {
+    fn drop(&mut self) {
+        if let Ok(mut reqs) = self.requests.try_write() {
+            reqs.remove(&self.message_id);
+            return;
+        }
+        // The table is locked right now: finish the removal on the runtime
+        if let Ok(handle) = tokio::runtime::Handle::try_current() {
+            let requests = Arc::clone(&self.requests);
+            let message_id = std::mem::take(&mut self.message_id);
+            handle.spawn(async move {
+                requests.write().await.remove(&message_id);
+            });
+        }
     }
 }
 
